@@ -147,8 +147,11 @@ def cmd_check(pid, tier):
     n = c["cases"][tier]
     if os.environ.get("VERIF_CASES"):
         n = int(os.environ["VERIF_CASES"])
+    budget = c.get("budget", {}).get(tier)
+    if os.environ.get("VERIF_BUDGET"):
+        budget = int(os.environ["VERIF_BUDGET"])
     return framework.run_check(pid, c["module"], c["fn"], bindir, n, tier, c["level"], c["rule"], c["assumptions"], c["components"],
-                               extra=c.get("extra"), budget_s=c.get("budget", {}).get(tier))
+                               extra=c.get("extra"), budget_s=budget)
 
 
 def cmd_replay(path):
